@@ -414,6 +414,7 @@ pub fn main(args: &Args) -> std::io::Result<()> {
             // known finding K12: the geometry of such strokes is not meaningful; only panics / non-finite output matter
             if rec.verts.iter().any(|v| !(v.pos.x.is_finite() && v.pos.y.is_finite())) {
                 st.fail(jobj(&[("what", jstr("a stroke vertex carries a non-finite value")), ("input", jstr(&label)), ("class", jstr("K12"))]));
+                st.inc("k12_non_finite");
             }
             continue;
         }
@@ -583,5 +584,14 @@ pub fn main(args: &Args) -> std::io::Result<()> {
     }
     clear_breadcrumb(&args.out);
     w.finish()?;
+    // K12 accounts for non-finite output on a small part of its domain (at most 1 % of the inputs with rate >= 1, measured
+    // over 12 runs: 0..12 of 144..1295); a change that makes it common there is a new failure
+    let (k12_bad, k12_all) = (*st.counters.get("k12_non_finite").unwrap_or(&0), *st.counters.get("variable_width_rate_ge_1").unwrap_or(&0));
+    if k12_bad > 4 + k12_all / 50 {
+        st.fail(jobj(&[
+            ("what", jstr("non-finite stroke vertices on far more variable-width inputs with rate >= 1 than the known finding K12 accounts for")),
+            ("input", jstr(&format!("{} of {} inputs with rate >= 1 (K12 on the pinned tree: at most 1 %)", k12_bad, k12_all))),
+        ]));
+    }
     st.write(&args.out.join("c05_stats.json"))
 }
